@@ -21,7 +21,7 @@ from .. import plugins as P
 from .. import sched as S
 from ..core import SimRun, Violation, rng_for, jhash, classify_abort
 from ..pipeline import DATA_DIR, PipelineRun, common_verdict, prestore, sig_of_exception, base_result
-from ..simfs import ROOT, SimFS
+from ..simfs import ROOT, Fault, SimFS
 from . import c03
 
 PROPERTY = "C16"
@@ -58,6 +58,15 @@ def gen(seed, tier):
         w["max_workers"] = r.randint(1, 3)
         w["replace"] = r.random() < 0.4
         w["dest"] = None if (w["replace"] and r.random() < 0.5) else r.choice(["plain", "named"])
+        # one I/O fault while the new copy is being written (or the old one read), a third of the runs
+        w["fault"] = None
+        if r.random() < 0.35:
+            if r.random() < 0.8:
+                w["fault"] = {"kind": r.choice(["eio", "enospc", "short_write"]),
+                              "op": r.choice(["write", "write", "write", "open_w", "rename", "makedirs"]),
+                              "nth": r.choice([0, 0, 1, 2, 3, 5])}
+            else:
+                w["fault"] = {"kind": "read_eio", "op": "read", "nth": r.choice([0, 1, 2, 3])}
         return w
     # context based modes: a small graph
     spec = G.gen_graph(r, n_derived=(1, 2), n_sources=(1, 1), n_rows=(1, 10), max_chunks=6,
@@ -79,6 +88,17 @@ def gen(seed, tier):
         w["new_compressor"] = r.choice([None, "blosc", "zstd", "lz4", "bz2"])
         w["rechunk"] = r.random() < 0.6
         w["rechunk_to_mb"] = r.choice([24 / 1e6, 2 * 24 / 1e6, 5 * 24 / 1e6, 200])
+        # 1..3 further frontends; the copy goes to one of them or (no index: the documented default) to all
+        # that take the data and do not have it yet
+        w["n_targets"] = r.choice([1, 2, 2, 3])
+        w["target_id"] = r.choice([None, None, r.randint(1, w["n_targets"])])
+        w["has_already"] = sorted(i for i in range(1, w["n_targets"] + 1)
+                                  if w["n_targets"] > 1 and i != w["target_id"] and r.random() < 0.2)
+        w["fault"] = None
+        if r.random() < 0.25:
+            w["fault"] = {"kind": r.choice(["eio", "enospc", "short_write"]),
+                          "op": r.choice(["write", "write", "open_w", "rename", "makedirs"]),
+                          "nth": r.choice([0, 0, 1, 2, 3]), "frontend": r.randint(1, w["n_targets"])}
     elif mode == "onload":
         w["layout"] = G.gen_bounds(r, rows, s, e, max_chunks=5)
         nb = P.node_by_type(spec)
@@ -218,6 +238,13 @@ def execute_rechunker(w, seed, strategy, forced, strict):
             dest = f"{ROOT}/dst"
         elif w["dest"] == "named":
             dest = f"{ROOT}/dst/0-thing-abcdefghij"
+        f = w.get("fault")
+        if f:
+            # the new copy is written to <dest>_temp (a temporary directory when replacing without a
+            # destination); the fault addresses the nth operation of one kind there, or a read of the source
+            new_dir = f"{ROOT}/tmp/tmp0001/0-thing-abcdefghij" if dest is None else f"{ROOT}/dst/0-thing-abcdefghij"
+            fs.faults.append(Fault(f["kind"], path_prefix=src if f["op"] == "read" else new_dir + "_temp",
+                                   op_kind=f["op"], nth=f["nth"]))
         res["summary"] = strax.rechunker(src, dest_directory=dest, replace=w["replace"],
                                          compressor=w["new_compressor"], target_size_mb=w["new_target_mb"],
                                          rechunk=w["rechunk"], progress_bar=False, parallel=w["parallel"],
@@ -230,7 +257,17 @@ def execute_rechunker(w, seed, strategy, forced, strict):
     vio, inconclusive = sched_verdict(R.sim, out)
     final_dir = src if w["replace"] else f"{ROOT}/dst/0-thing-abcdefghij"
     comp = w["new_compressor"] or w["compressor"]
-    if vio is None and not inconclusive:
+    fired = [x for x in fs.fired]
+    fs.healed = True          # the judging below reads the same simulated disk
+    if vio is None and not inconclusive and fired and out[0] == "exc":
+        # a failed rewrite: whatever it raises, the data it was rewriting is still there, unchanged (the
+        # fault hit while the new copy was written; the source is only replaced afterwards)
+        if "src_digest" not in res:
+            vio = Violation("EXC", f"harness phase: {sig_of_exception(out[1])}", repr(out[1])[:600])
+        elif snapshot(fs, src) != res["src_digest"]:
+            vio = Violation("SOURCE_LOST", f"rechunker failed ({w['fault']['op']} error) and the source data is "
+                                           f"changed or gone (replace={w['replace']})", fs.tree(src)[:8])
+    elif vio is None and not inconclusive:
         if out[0] == "exc":
             vio = Violation("EXC", f"rechunker raised {sig_of_exception(out[1])}", repr(out[1])[:800])
         else:
@@ -252,13 +289,73 @@ def execute_rechunker(w, seed, strategy, forced, strict):
                                     (md.get("chunk_target_size_mb"), w["new_target_mb"]))
             if vio is None and [p for p in fs.tree(ROOT + "/tmp") if p != ROOT + "/tmp/"]:
                 vio = Violation("LEFTOVERS", "temporary directory not cleaned up", fs.tree(ROOT + "/tmp")[:5])
-    return _finish(R, w, vio, inconclusive, strategy, len(arr) > 0,
+            if vio is not None and fired:
+                vio = Violation("SWALLOWED", f"rechunker (parallel={w['parallel']}, replace={w['replace']}) returned "
+                                             f"its normal summary although a {w['fault']['op']} failed; result: "
+                                             f"{vio.cls}", f"{vio.signature}; {str(vio.detail)[:400]}")
+    r = _finish(R, w, vio, inconclusive, strategy, len(arr) > 0,
                    {"mode_rechunker": 1, f"parallel_{w['parallel']}": 1, "replace_runs": int(w["replace"]),
+                    "fault_fired": int(bool(fired)),
+                    "fault_then_raised": int(bool(fired) and out[0] == "exc"),
                     f"to_{comp}": 1, "rechunk_runs": int(w["rechunk"])},
                    {"mode": "rechunker", "dtype": w["dtype"], "n_rows": len(arr), "bounds": bounds,
                     "compressor": w["compressor"], "new_compressor": w["new_compressor"],
                     "new_target_mb": w["new_target_mb"], "parallel": w["parallel"], "replace": w["replace"],
-                    "dest": w["dest"], "rechunk": w["rechunk"]})
+                    "dest": w["dest"], "rechunk": w["rechunk"], "fault": w.get("fault"),
+                    "outcome": out[0] if out[0] != "exc" else sig_of_exception(out[1])})
+    if w.get("fault"):
+        r["faults"] = {f"rechunker_{w['fault']['kind']}_{w['fault']['op']}": int(bool(fired))}
+    return r
+
+
+def judge_copy(w, fs, res, roots, exp, spec, target):
+    have = list(w.get("has_already", []))
+    tid = w.get("target_id", 1)
+    n = len(roots) - 1
+    expected = [i for i in range(1, n + 1) if i not in have] if tid is None else [tid]
+    fired = list(fs.fired)
+    where = f"target_frontend_id={tid}, {n} further frontend(s)"
+    for i in [0] + have:
+        if snapshot(fs, roots[i]) != res["digest"][i]:
+            return Violation("SOURCE_CHANGED", "copy_to_frontend changed the source frontend" if i == 0 else
+                             "copy_to_frontend changed a frontend that already had the data", where)
+    if res["copy"] == "raised":
+        e = res["copy_exc"]
+        if isinstance(e, S.HarnessError):
+            raise e
+        if fired or not expected:
+            return None        # a failed / refused copy; what is left in the target is C04's subject
+        return Violation("EXC", f"copy: {sig_of_exception(e)}", repr(e)[:800])
+    vio = None
+    if not expected:
+        vio = Violation("NO_ERROR", "copy_to_frontend with nowhere to copy to returned normally", where)
+    comp = w["new_compressor"] or P.node_by_type(spec)[target]["opts"]["compressor"]
+    for i in expected:
+        if vio is not None:
+            break
+        ent = res["per"][i]
+        if not ent["stored"]:
+            vio = Violation("MISSING", "copied data is not reported as stored in a destination frontend",
+                            f"frontend {i}; {where}")
+        elif "exc" in ent:
+            vio = Violation("UNLOADABLE", f"copied data cannot be loaded: {sig_of_exception(ent['exc'])}",
+                            f"frontend {i}; {where}; {ent['exc']!r}"[:600])
+        elif not P.rows_equal(ent["rows"], exp):
+            vio = Violation("WRONG_ROWS", "copied data loads to different rows",
+                            f"frontend {i}; {where}; " + P.describe_diff(ent["rows"], exp))
+        else:
+            try:
+                vio = judge_dir(fs, ent["dir"], exp, w["layout"], w["rechunk"], comp)
+            except Exception as e:
+                vio = Violation("UNLOADABLE", f"copied data cannot be loaded: {sig_of_exception(e)}", repr(e)[:600])
+    for i in range(1, n + 1):
+        if vio is None and i not in expected and i not in have and (res["per"][i]["stored"] or fs.isdir(res["per"][i]["dir"])):
+            vio = Violation("STRAY_COPY", "data written to a frontend that was not the requested destination",
+                            f"frontend {i}; {where}")
+    if vio is not None and fired:
+        vio = Violation("SWALLOWED", f"copy_to_frontend returned normally although a {w['fault']['op']} failed; "
+                                     f"result: {vio.cls}", f"{vio.signature}; {str(vio.detail)[:400]}")
+    return vio
 
 
 def execute_ctx(w, seed, strategy, forced, strict):
@@ -267,20 +364,45 @@ def execute_ctx(w, seed, strategy, forced, strict):
     pr = PipelineRun(w, seed, strategy=strategy, forced=forced, strict=strict, fs=fs)
     spec, target = w["spec"], w["target"]
     res = {}
-    D1 = ROOT + "/d1"
+    roots = [DATA_DIR] + [f"{ROOT}/d{i}" for i in range(1, w.get("n_targets", 1) + 1)]
 
     def body():
         pr.build()
         if mode == "copy":
-            ctx = pr.context(storage=[strax.DataDirectory(DATA_DIR), strax.DataDirectory(D1)])
+            ctx = pr.context(storage=[strax.DataDirectory(p) for p in roots])
             prestore(ctx, pr.run_id, target, pr.oracle[target], w["layout"], frontend=0)
-            res["src_digest"] = snapshot(fs, DATA_DIR)
-            ctx.copy_to_frontend(pr.run_id, target, target_frontend_id=1, target_compressor=w["new_compressor"],
-                                 rechunk=w["rechunk"], rechunk_to_mb=w["rechunk_to_mb"])
-            only1 = pr.context(storage=[strax.DataDirectory(D1)], extra={"forbid_creation_of": "*"})
-            res["stored_in_dest"] = only1.is_stored(pr.run_id, target)
-            res["rows"] = only1.get_array(pr.run_id, target, processor="single_thread", progress_bar=False)
-            res["dest_dir"] = D1 + "/" + str(only1.key_for(pr.run_id, target))
+            for i in w.get("has_already", []):
+                prestore(ctx, pr.run_id, target, pr.oracle[target], w["layout"], frontend=i)
+            res["digest"] = {i: snapshot(fs, roots[i]) for i in [0] + list(w.get("has_already", []))}
+            f = w.get("fault")
+            if f:
+                fs.faults.append(Fault(f["kind"], path_prefix=roots[f["frontend"]] + "/", op_kind=f["op"],
+                                       nth=f["nth"]))
+            try:
+                ctx.copy_to_frontend(pr.run_id, target, target_frontend_id=w.get("target_id", 1),
+                                     target_compressor=w["new_compressor"], rechunk=w["rechunk"],
+                                     rechunk_to_mb=w["rechunk_to_mb"])
+                res["copy"] = "returned"
+            except S.SimAbort:
+                raise
+            except Exception as e:
+                res["copy"] = "raised"
+                res["copy_exc"] = e
+            fs.healed = True
+            res["per"] = {}
+            for i in range(1, len(roots)):
+                only = pr.context(storage=[strax.DataDirectory(roots[i])], extra={"forbid_creation_of": "*"})
+                entry = {"stored": only.is_stored(pr.run_id, target),
+                         "dir": roots[i] + "/" + str(only.key_for(pr.run_id, target))}
+                if entry["stored"]:
+                    try:
+                        entry["rows"] = only.get_array(pr.run_id, target, processor="single_thread",
+                                                       progress_bar=False)
+                    except S.SimAbort:
+                        raise
+                    except Exception as e:
+                        entry["exc"] = e
+                res["per"][i] = entry
         elif mode == "onload":
             ctx = pr.context()
             prestore(ctx, pr.run_id, target, pr.oracle[target], w["layout"])
@@ -314,18 +436,7 @@ def execute_ctx(w, seed, strategy, forced, strict):
         if out[0] == "exc":
             vio = Violation("EXC", f"{mode}: {sig_of_exception(out[1])}", repr(out[1])[:800])
         elif mode == "copy":
-            if not res["stored_in_dest"]:
-                vio = Violation("MISSING", "copied data is not reported as stored in the destination", "")
-            elif not P.rows_equal(res["rows"], exp):
-                vio = Violation("WRONG_ROWS", "copied data loads to different rows", P.describe_diff(res["rows"], exp))
-            elif snapshot(fs, DATA_DIR) != res["src_digest"]:
-                vio = Violation("SOURCE_CHANGED", "copy_to_frontend changed the source frontend", "")
-            else:
-                comp = w["new_compressor"] or P.node_by_type(spec)[target]["opts"]["compressor"]
-                try:
-                    vio = judge_dir(fs, res["dest_dir"], exp, w["layout"], w["rechunk"], comp)
-                except Exception as e:
-                    vio = Violation("UNLOADABLE", f"copied data cannot be loaded: {sig_of_exception(e)}", repr(e)[:600])
+            vio = judge_copy(w, fs, res, roots, exp, spec, target)
         elif mode == "onload":
             from ..pipeline import check_tiling
             want = pr.oracle[w["request"]]
@@ -350,7 +461,13 @@ def execute_ctx(w, seed, strategy, forced, strict):
         probes["pool_runs"] = int(w["cfg"]["max_workers"] > 1)
     if mode == "perchunk":
         probes["perchunk_groups"] = len(w["groups"])
+    if mode == "copy":
+        probes["copy_to_all_frontends"] = int(w.get("target_id", 1) is None and w.get("n_targets", 1) > 1)
+        probes["copy_fault_fired"] = int(bool(fs.fired))
+        probes["copy_raised"] = int(res.get("copy") == "raised")
     r = base_result(pr, w, vio, inconclusive, strategy=strategy, extra_probes=probes)
+    if mode == "copy" and w.get("fault"):
+        r["faults"] = {f"copy_{w['fault']['kind']}_{w['fault']['op']}": int(bool(fs.fired))}
     r["nontrivial"] = exp is not None and len(exp) > 0
     r["sample"] = {"mode": mode, "target": target, "cfg": w["cfg"],
                    "nodes": [{k: v for k, v in n.items() if k != "rows"} for n in spec["nodes"]],
